@@ -70,6 +70,7 @@ func main() {
 		os.Exit(3)
 	}
 	defer o.Close()
+	installRunawayGuard()
 	quiet()
 	if pf := os.Getenv("C06_PROF"); pf != "" {
 		f, _ := os.Create(pf)
@@ -117,6 +118,10 @@ func main() {
 			fmt.Sscan(st[i+1:], &cnt)
 		}
 		for i := 0; i < cnt; i++ {
+			if ce := corpusByName(name); ce != nil {
+				runScenario(name, ce.alloc, 1, 0)
+				continue
+			}
 			runScenario(name, false, r.Rng.U64(), 8+r.Rng.Intn(21))
 		}
 		loud()
@@ -150,6 +155,16 @@ func main() {
 	n = r.N(10, 100)
 	for i := 0; i < n; i++ {
 		runScenario("siblings", false, g.U64(), 3+g.Intn(3))
+	}
+
+	// 6. header-first delivery (the client's path): the random trees again, headers running ahead of the data
+	n = r.N(12, 160)
+	for i := 0; i < n; i++ {
+		runScenario("random-headers", false, g.U64(), 8+g.Intn(21))
+	}
+	n = r.N(3, 40)
+	for i := 0; i < n; i++ {
+		runScenario("random-headers-mixed-bits", false, g.U64(), 8+g.Intn(21))
 	}
 
 	r.Assume = []string{
